@@ -262,11 +262,10 @@ fn main() {
         return;
     }
     if mode == "execdump" {
-        // vh execdump args... : records who it is ($VH_DUMP: pid, argv, cwd, VP_* environment, uid, gid), exits with $VH_EXIT
+        // vh execdump args... : records who it is ($VH_DUMP: pid, argv, cwd, the whole environment, uid, gid), exits with $VH_EXIT
         use std::os::unix::ffi::OsStrExt;
         let argv: Vec<String> = std::env::args_os().skip(2).map(|a| hex(a.as_bytes())).collect();
         let envs: serde_json::Map<String, J> = std::env::vars_os()
-            .filter(|(k, _)| k.to_string_lossy().starts_with("VP_"))
             .map(|(k, v)| (k.to_string_lossy().into_owned(), json!(hex(v.as_bytes()))))
             .collect();
         let rec = json!({"pid": std::process::id(), "argv": argv,
